@@ -435,9 +435,6 @@ func c06Run(c *engine.Ctx) {
 	alpha := c06Alphabet(1)
 	c.Parallel(len(corpus), func(i int) {
 		g := corpus[i]
-		if len(g.Kids) > 1 || (g.Kind == ref.MultiPolygon && len(g.C3) > 2) {
-			return
-		}
 		toks := wktWords(ref.WriteWKT(g, ref.WKTStyle{}))
 		render := func(ts []string) string { return strings.Join(ts, " ") }
 		try := func(ts []string) {
@@ -445,7 +442,10 @@ func c06Run(c *engine.Ctx) {
 			c.Count("evaluations", 1)
 			c.Count("mutations", 1)
 		}
-		try(toks)
+		try(toks) // every corpus text as it is (accepted: well formed, same geometry as the reference reader)
+		if len(g.Kids) > 1 || (g.Kind == ref.MultiPolygon && len(g.C3) > 2) {
+			return // the larger ones are not mutated
+		}
 		for p := range toks {
 			del := append(append([]string{}, toks[:p]...), toks[p+1:]...)
 			try(del)
@@ -552,7 +552,7 @@ func c06Run(c *engine.Ctx) {
 	// into a line
 	{
 		alpha3 := c06Alphabet(3)
-		seps := []string{"\n", strings.Repeat(" ", 37), "\n" + strings.Repeat(" ", 45), "\t\r\n", "\r\n" + strings.Repeat(" ", 45), "\r" + strings.Repeat(" ", 33)}
+		seps := []string{"\n", strings.Repeat(" ", 37), "\n" + strings.Repeat(" ", 45), "\t\r\n", "\r\n" + strings.Repeat(" ", 45), "\r" + strings.Repeat(" ", 33), "\n\n" + strings.Repeat(" ", 45), "\n \t\n\n" + strings.Repeat(" ", 33)}
 		var rec func(seq []string, d int)
 		rec = func(seq []string, d int) {
 			if len(seq) > 0 {
